@@ -1,7 +1,7 @@
 (** * C17, part B — the integer families, for every width [w] and both overflow modes.
-    Inputs are arbitrary in-range machine integers. The guards are the exact no-overflow conditions of the
-    current code; outside them the code overflows (see the [known_*] witnesses), which the property does not allow:
-    these are recorded as known findings. *)
+    Inputs are arbitrary in-range machine integers. After the repairs recorded in known_findings.json no guard is left:
+    every function is correct for every in-range input (the unsigned wrapped_between always was).
+    *)
 Require Import ZArith List Lia Bool.
 From VekLib Require Import Ops MachineInt.
 From VekGen Require Import C17_gen.
@@ -22,47 +22,42 @@ Definition C17_int_clamp_stmt : Prop :=
       (hi < lo -> irun s (ienv [x; lo; hi]) pc = Panic /\ irun s (ienv [x; lo; hi]) pb = Panic))
     [ (p_s_clamped, p_s_is_between); (p_u_clamped, p_u_is_between) ].
 
-(** wrapped_between (same code for both families): the unique value in [lo, hi) congruent to x *)
+(** wrapped_between: the unique value in [lo, hi) congruent to x.
+    Unsigned family: the subtract-free-of-overflow form is correct for EVERY input (the guard below always holds there).
+    Signed family (after the repair): offsets within a period, correct for EVERY input, no guard. *)
 Definition wb_guard (s : isem) (x lo hi : Z) : Prop :=
   lo <= x \/ (lo - x <= imax s /\ (hi - lo) * ((lo - x) / (hi - lo) + 1) <= imax s).
+Definition wb_post (x lo hi r : Z) : Prop := lo <= r < hi /\ (r - x) mod (hi - lo) = 0.
 Definition C17_int_wrapped_between_stmt : Prop :=
   forall s x lo hi, wf s -> in_range s x -> in_range s lo -> in_range s hi ->
-    Forall (fun p =>
-      (0 <= lo < hi -> wb_guard s x lo hi ->
-         iret1 (irun s (ienv [x; lo; hi]) p) (fun r => lo <= r < hi /\ (r - x) mod (hi - lo) = 0)) /\
-      (~ (0 <= lo < hi) -> irun s (ienv [x; lo; hi]) p = Panic))
-    [ p_s_wrapped_between; p_u_wrapped_between ] /\
-    (* for unsigned types the guard always holds: the result is correct for EVERY input *)
-    (signed s = false -> 0 <= lo < hi -> wb_guard s x lo hi).
+    (0 <= lo < hi ->
+       (wb_guard s x lo hi -> iret1 (irun s (ienv [x; lo; hi]) p_u_wrapped_between) (wb_post x lo hi)) /\
+       (signed s = false -> wb_guard s x lo hi) /\
+       (signed s = true -> iret1 (irun s (ienv [x; lo; hi]) p_s_wrapped_between) (wb_post x lo hi))) /\
+    (~ (0 <= lo < hi) -> irun s (ienv [x; lo; hi]) p_u_wrapped_between = Panic /\ irun s (ienv [x; lo; hi]) p_s_wrapped_between = Panic).
 
-(** wrapped / pingpong *)
+(** wrapped / pingpong: for EVERY in-range input (2 must be representable: true of every Rust integer type) *)
 Definition C17_int_wrap_stmt : Prop :=
-  forall s x u, wf s -> in_range s x -> in_range s u ->
-    (* unsigned *)
+  forall s x u, wf s -> 2 <= imax s -> in_range s x -> in_range s u ->
     (signed s = false ->
        (0 < u -> irun s (ienv [x; u]) p_u_wrapped = Ret ([], [x mod u])) /\
        (u <= 0 -> irun s (ienv [x; u]) p_u_wrapped = Panic) /\
-       (0 < u -> 2 * u <= imax s -> irun s (ienv [x; u]) p_u_pingpong = Ret ([], [tri u (x mod (2 * u))])) /\
+       (0 < u -> irun s (ienv [x; u]) p_u_pingpong = Ret ([], [tri u (x mod (2 * u))])) /\
        (u <= 0 -> irun s (ienv [x; u]) p_u_pingpong = Panic)) /\
-    (* signed: wrapped(x,u) = wrapped_between(x,0,u); pingpong = triangle of wrapped(x, 2u) *)
     (signed s = true ->
-       (0 < u -> wb_guard s x 0 u -> irun s (ienv [x; u]) p_s_wrapped = Ret ([], [x mod u])) /\
+       (0 < u -> irun s (ienv [x; u]) p_s_wrapped = Ret ([], [x mod u])) /\
        (u <= 0 -> irun s (ienv [x; u]) p_s_wrapped = Panic) /\
-       (0 < u -> 2 * u <= imax s -> wb_guard s x 0 (2 * u) ->
-          irun s (ienv [x; u]) p_s_pingpong = Ret ([], [let m := x mod (2 * u) in if u <? m then 2 * u - m else m])) /\
+       (0 < u -> irun s (ienv [x; u]) p_s_pingpong = Ret ([], [let m := x mod (2 * u) in if u <? m then 2 * u - m else m])) /\
        (u <= 0 -> irun s (ienv [x; u]) p_s_pingpong = Panic)) /\
     (forall m, 0 <= m < 2 * u -> 0 <= tri u m <= u).
 
-(** known findings: outside the guards the code overflows although the result is representable *)
+(** the inputs that overflowed before the repairs (commits recorded in known_findings.json) now give the demanded value,
+    with and without overflow checks *)
 Definition i8 (d : bool) : isem := {| signed := true; width := 8; dbg := d |}.
 Definition u8 (d : bool) : isem := {| signed := false; width := 8; dbg := d |}.
-Definition C17_known_overflows_stmt : Prop :=
-  (* (-100i8).wrapped_between(100, 120): panics with overflow checks, 116 without; the property demands 100 *)
-  irun (i8 true) (ienv [-100; 100; 120]) p_s_wrapped_between = Panic /\
-  irun (i8 false) (ienv [-100; 100; 120]) p_s_wrapped_between = Ret ([], [116]) /\
-  (100 <= 100 < 120 /\ (100 - -100) mod (120 - 100) = 0) /\
-  (* 5i8.pingpong(100) and 5u8.pingpong(200): upper + upper overflows; the property demands 5 *)
-  irun (i8 true) (ienv [5; 100]) p_s_pingpong = Panic /\
-  irun (i8 false) (ienv [5; 100]) p_s_pingpong = Panic /\
-  irun (u8 true) (ienv [5; 200]) p_u_pingpong = Panic /\
-  irun (u8 false) (ienv [5; 200]) p_u_pingpong = Ret ([], [5]).
+Definition C17_repaired_stmt : Prop :=
+  forall d, irun (i8 d) (ienv [-100; 100; 120]) p_s_wrapped_between = Ret ([], [100]) /\
+            irun (i8 d) (ienv [5; 100]) p_s_pingpong = Ret ([], [5]) /\
+            irun (u8 d) (ienv [5; 200]) p_u_pingpong = Ret ([], [5]) /\
+            irun (i8 d) (ienv [-128; 127]) p_s_pingpong = Ret ([], [126]) /\
+            irun (u8 d) (ienv [255; 255]) p_u_pingpong = Ret ([], [255]).
